@@ -271,6 +271,12 @@ pub fn run_engine(ctx: &Ctx, prop: &str) -> EngineResult {
         }
         rep.set("debugger_write_cases", n);
         rep.violations_from(vs);
+        let (n, vs) = super::iolatch::run();
+        if vs.iter().any(|v| v.signature.starts_with("C03/machinery")) {
+            return machinery(format!("I/O latch family could not run: {}", vs[0].what));
+        }
+        rep.set("io_latch_cases", n);
+        rep.violations_from(vs);
     }
     for (f, (a, _)) in &per_family {
         if *a == 0 {
@@ -304,6 +310,13 @@ pub fn run_engine(ctx: &Ctx, prop: &str) -> EngineResult {
 }
 
 pub fn replay(prop: &str, case: &Value) -> Vec<Violation> {
+    if case["kind"] == "io-latch" {
+        let (_, vs) = super::iolatch::run();
+        return vs
+            .into_iter()
+            .filter(|v| v.case["addr"] == case["addr"] && v.case["value"] == case["value"] && v.case["type"] == case["type"])
+            .collect();
+    }
     if case["kind"] == "debug-write" {
         let (_, vs) = super::dbgwrite::run();
         return vs
